@@ -129,6 +129,7 @@ def main (args : List String) : IO UInt32 := do
   | ["dispatch6"] => run ⟨(), fun _ op res => ((), Dispatch.step6 op res)⟩; return 0
   | ["plugins"] => run ⟨(), fun _ op res => ((), Plugins.step op res)⟩; return 0
   | ["file"] => run ⟨({} : File.St), File.step⟩; return 0
+  | ["filec"] => run ⟨({} : File.St), File.step⟩; return 0
   | ["config"] => run ⟨(), fun _ op res => ((), Config.step op res)⟩; return 0
   | ["chain"] => run ⟨(), fun _ op res => ((), Chain.step op res)⟩; return 0
   | ["plug"] => run ⟨({} : Plug.St), Plug.step⟩; return 0
